@@ -124,6 +124,26 @@ def discharge(axioms, o, want_model=True):
     if r == z3.unsat: return 'discharged', 'z3', dt, None, ''
     if r == z3.sat: return 'refuted', 'z3', dt, s.model(), ''
     reason = s.reason_unknown()
+    # second attempt: skolemise the goal conjunct by conjunct and instantiate quantified hypotheses at the ground sequence indices
+    try:
+        import itertools as _it
+        cnt = _it.count()
+        parts = strip_goal(o.goal, lambda srt, nm: z3.Const(f'sk!{nm}!{next(cnt)}', srt))
+        all_ok = True; dt2 = 0.0
+        for hyps, g in parts:
+            s2 = z3.Solver(); s2.set('timeout', Z3_TIMEOUT_MS)
+            base = list(axioms) + list(o.pc) + list(hyps)
+            for a in base: s2.add(a)
+            s2.add(z3.Not(g))
+            ground = list(hyps) + [z3.Not(g)] + [p for p in o.pc if not z3.is_quantifier(p)]
+            inst = index_instances(base, ground)
+            for i_ in inst: s2.add(i_)
+            for i_ in mem_instances(base + [z3.Not(g)] + inst): s2.add(i_)
+            t2 = time.time(); r2 = s2.check(); dt2 += time.time() - t2
+            if r2 != z3.unsat: all_ok = False; break
+        if all_ok and parts: return 'discharged', 'z3+inst', dt + dt2, None, ''
+    except Exception as ex_:       # the helper must never turn into a verdict
+        reason += f'; inst: {ex_}'
     # second opinion: cvc5 on the SMT-LIB text
     try:
         v2, dt2 = cvc5_check(s.to_smt2())
